@@ -41,6 +41,40 @@ Proof.
   rewrite F. split; [reflexivity|exact E].
 Qed.
 
+Lemma bytes_groups b m : bytes_ok b -> length b = (4 * m)%nat ->
+  Forall (fun c => bytes_ok c /\ length c = 4%nat) (groups 4 m b) /\ concat (groups 4 m b) = b.
+Proof.
+  intros Hb Hl. split.
+  - pose proof (bytes_ok_groups 4 m b Hb) as A.
+    pose proof (groups_all_len 4 m b ltac:(lia)) as B.
+    rewrite Forall_forall in *. intros c Hc. split; auto.
+  - rewrite concat_groups by lia. rewrite <- Hl. apply firstn_all.
+Qed.
+
+Lemma groups3_shape (ws : list (list N)) m : (3 * m <= length ws)%nat ->
+  Forall (fun g => exists a b c, g = [a; b; c]) (groups 3 m ws).
+Proof.
+  intros H. pose proof (groups_all_len 3 m ws H) as A. rewrite Forall_forall in *.
+  intros g Hg. specialize (A g Hg). destruct g as [|a [|b [|c [|d t]]]]; simpl in A; try lia. eauto.
+Qed.
+
+Lemma triples_in (wl : list (list N)) (gs : list (list (list N))) : Forall (fun g => exists a b c, g = [a; b; c]) gs ->
+  (Forall (fun w => In w wl) (concat gs) <->
+   Forall (fun g => match g with [a; b; c] => In a wl /\ In b wl /\ In c wl | _ => False end) gs).
+Proof.
+  induction 1 as [|g gs (a & b & c & ->) _ IH]; simpl; [split; constructor|].
+  rewrite !Forall_cons_iff, IH. tauto.
+Qed.
+
+Lemma mapM_total_iff {A B} (f : A -> res B) l :
+  (exists r, mapM f l = Ok r) <-> Forall (fun x => exists y, f x = Ok y) l.
+Proof.
+  split.
+  - intros [r H]. apply mapM_ok_inv in H. induction H; constructor; eauto.
+  - induction 1 as [|x l [y Hy] _ [r IH]]; [exists []; reflexivity|].
+    exists (y :: r). simpl. rewrite Hy. simpl. rewrite IH. reflexivity.
+Qed.
+
 Section MoneroProofs.
   Variable langs : list (list (list N) * nat).
   Variables word_nums word_nums_chk ent_bit_lens : list N.
@@ -85,15 +119,6 @@ Section MoneroProofs.
       + repeat constructor; try assumption; apply word_idx_ok_iff; eauto.
   Qed.
 
-  Lemma bytes_groups b m : bytes_ok b -> length b = (4 * m)%nat ->
-    Forall (fun c => bytes_ok c /\ length c = 4%nat) (groups 4 m b) /\ concat (groups 4 m b) = b.
-  Proof.
-    intros Hb Hl. split.
-    - pose proof (bytes_ok_groups 4 m b Hb) as A.
-      pose proof (groups_all_len 4 m b ltac:(lia)) as B.
-      rewrite Forall_forall in *. intros c Hc. split; auto.
-    - rewrite concat_groups by lia. rewrite <- Hl. apply firstn_all.
-  Qed.
 
   (* ---- the checksum word always exists for list words ---- *)
   Lemma prefixes_text_ok wl plen ws : forallb text_okb wl = true -> Forall (fun w => In w wl) ws ->
@@ -257,12 +282,6 @@ Section MoneroProofs.
   Qed.
 
   (* ---- acceptance ---- *)
-  Lemma groups3_shape (ws : list (list N)) m : (3 * m <= length ws)%nat ->
-    Forall (fun g => exists a b c, g = [a; b; c]) (groups 3 m ws).
-  Proof.
-    intros H. pose proof (groups_all_len 3 m ws H) as A. rewrite Forall_forall in *.
-    intros g Hg. specialize (A g Hg). destruct g as [|a [|b [|c [|d t]]]]; simpl in A; try lia. eauto.
-  Qed.
 
   (* the words of a phrase, in terms of its triples and its last word *)
   Lemma phrase_split (ws : list (list N)) : cnt_ok (length ws) ->
@@ -283,22 +302,7 @@ Section MoneroProofs.
     (cnt_chk (length ws) -> compute_checksum (snd L) (removelast ws) = Ok (last ws [])) /\
     (canon = true -> Forall (triple_canon (fst L)) (groups 3 (Nat.div (length ws) 3) ws)).
 
-  Lemma triples_in (wl : list (list N)) (gs : list (list (list N))) : Forall (fun g => exists a b c, g = [a; b; c]) gs ->
-    (Forall (fun w => In w wl) (concat gs) <->
-     Forall (fun g => match g with [a; b; c] => In a wl /\ In b wl /\ In c wl | _ => False end) gs).
-  Proof.
-    induction 1 as [|g gs (a & b & c & ->) _ IH]; simpl; [split; constructor|].
-    rewrite !Forall_cons_iff, IH. tauto.
-  Qed.
 
-  Lemma mapM_total_iff {A B} (f : A -> res B) l :
-    (exists r, mapM f l = Ok r) <-> Forall (fun x => exists y, f x = Ok y) l.
-  Proof.
-    split.
-    - intros [r H]. apply mapM_ok_inv in H. induction H; constructor; eauto.
-    - induction 1 as [|x l [y Hy] _ [r IH]]; [exists []; reflexivity|].
-      exists (y :: r). simpl. rewrite Hy. simpl. rewrite IH. reflexivity.
-  Qed.
 
   Theorem accepts_iff (canon : bool) i L ws : nth_error langs i = Some L ->
     ((exists b, decode (if canon then words_to_chunk else words_to_chunk_current) (Some i) ws = Ok b)
